@@ -126,6 +126,59 @@ def takeUsed : List Out → Nat
   | .raised _ :: _ => 1
   | .stop :: _ => 0
 
+/-! ## the QUERY log and scripts of reads, property shaped -/
+
+/-- the applications asked about, in order, through the first one that raises (nothing is asked after it) -/
+def throughFirst (bad : Term → Bool) : List Term → List Term
+  | [] => []
+  | t :: r => if bad t then [t] else t :: throughFirst bad r
+
+/-- how many calls of `next` a read may use -/
+def Read.cost : Read → Nat
+  | .next => 1
+  | .take k => k
+  | .peek k => k
+
+def readsCost : List Read → Nat
+  | [] => 0
+  | r :: rs => r.cost + readsCost rs
+
+/-- did this read meet the end of the data?  (`next`: StopIteration; `take(k)`: fewer than `k` items) -/
+def ReadOut.metEnd : Read → ReadOut → Bool
+  | _, .one .stop => true
+  | .take k, .took (.ok xs) => decide (xs.length < k)
+  | .peek k, .took (.ok xs) => decide (xs.length < k)
+  | _, _ => false
+
+/-- a script is observed up to and including the first read that meets the end of the data -/
+def untilEnd : List Read → List ReadOut → List ReadOut
+  | r :: rs, o :: os => if ReadOut.metEnd r o then [o] else o :: untilEnd rs os
+  | _, _ => []
+
+/-- the items in front of the first exception / the end -/
+def itemTerms : List Out → List Term
+  | .item x :: r => x :: itemTerms r
+  | _ => []
+
+/-- a script of `next` / `take(k)` / `peek(k)` reads, seen on the outcomes that successive calls of `next` deliver
+    (a drain: the list ends where the data ends): `next` is the next outcome; `take(k)` is all items of
+    the next `k` outcomes or the first exception among them, and uses up the outcomes through that
+    exception; the reading is observed up to the first read that meets the end -/
+def scriptOuts : List Read → List Out → List ReadOut
+  | [], _ => []
+  | .next :: _, [] => [.one .stop]
+  | .next :: rs, o :: os => .one o :: scriptOuts rs os
+  | .take k :: rs, os =>
+    let w := os.take k
+    .took (takeOuts w) ::
+      (if ReadOut.metEnd (.take k) (.took (takeOuts w)) then [] else scriptOuts rs (os.drop (takeUsed w)))
+  | .peek k :: rs, os =>
+    -- `peek(k)` answers like `take(k)`; the items it saw stay in the Stream, an exception it met is gone
+    let w := os.take k
+    .took (takeOuts w) ::
+      (if ReadOut.metEnd (.peek k) (.took (takeOuts w)) then []
+       else scriptOuts rs ((itemTerms w).map .item ++ os.drop (takeUsed w)))
+
 /-- broadcast functions: what the property says about a container whose elements may make the function raise -/
 def bcastOuts (bad : Term → Bool) (c : ECall) (src : List Out) : List Out :=
   cutRaise (mapOuts bad c.callWith src)
